@@ -444,7 +444,8 @@ def check_pdf(chk, rep, repo):
     rep.fn("PDF-map-sites", fn, "density and cost are assigned in both the all-equal and the general case",
            len(dstores) == 2 and (len(cstores) == 2 or (len(cstores) == 1 and shared_cost == 1)),
            f"{len(dstores)} density store(s), {len(cstores)} cost store(s)")
-    run_kinds(rep, w)
+    if hasattr(rep, "chk"):
+        run_kinds(rep, w)
 
 
 def _arms_name(W, a, b) -> bool:
